@@ -29,7 +29,7 @@ use zipora::memory::{
 };
 
 const HEADER: &str = r#"From ZV.Common Require Import Base Run.
-From ZV.C07 Require Import Model ModelFive ModelTL ModelTiered Cases.
+From ZV.C07 Require Import Model ModelFive ModelTL ModelTiered ModelSecure Cases.
 Open Scope N_scope.
 Definition case_t := xcase.
 Definition ok := xok.
@@ -382,19 +382,49 @@ impl Put for TlPut {
 impl Drop for TlPut { fn drop(&mut self) { self.h.clear(); self.pool.clear_caches(); } }
 
 // ---------------- SecureMemoryPool ----------------
-struct SecPut { h: HashMap<u64, SecurePooledPtr>, pool: Arc<SecureMemoryPool>, chunk: usize, align: usize, bulk: bool }
+struct SecPut { h: HashMap<u64, SecurePooledPtr>, pool: Arc<SecureMemoryPool>, chunk: usize, align: usize, bulk: bool,
+                // model comparison: chunk data address -> serial, observation of the current op, of all ops
+                serials: HashMap<usize, u64>, pending: Vec<Option<i64>>, rec: Vec<Vec<Option<i64>>> }
+impl SecPut {
+    fn serial(&mut self, addr: usize) -> i64 { let n = self.serials.len() as u64; *self.serials.entry(addr).or_insert(n) as i64 }
+    fn known(&self, addr: usize) -> i64 { self.serials.get(&addr).map(|&v| v as i64).unwrap_or(-1) }
+    /// the whole bookkeeping state through the inspectors: local cache and shared stack (top first), active table size
+    fn dump(&self) -> Vec<Option<i64>> {
+        let mut v = vec![];
+        let cache = self.pool.verif_local_cache_chunks();
+        v.push(Some(cache.len() as i64));
+        for a in cache.iter().rev() { v.push(Some(self.known(*a))); }
+        let mut stack = vec![];
+        let mut node = self.pool.verif_stack_head();
+        while node != 0 && stack.len() < 100000 { let (next, data) = unsafe { self.pool.verif_stack_node(node) }; stack.push(data); node = next; }
+        v.push(Some(stack.len() as i64));
+        for a in &stack { v.push(Some(self.known(*a))); }
+        v.push(Some(self.pool.verif_active_len() as i64));
+        v
+    }
+}
 impl Put for SecPut {
     fn alloc(&mut self, id: u64, _size: usize, _align: usize) -> Option<Blk> {
-        let mut p = if self.bulk && id % 4 == 0 { self.pool.allocate_bulk_with_prefetch(&[self.chunk]).ok()?.pop()? }
-                    else if id % 4 == 1 { self.pool.allocate_with_hint(true).ok()? } else { self.pool.allocate().ok()? };
+        let r = if self.bulk && id % 4 == 0 { self.pool.allocate_bulk_with_prefetch(&[self.chunk]).ok().and_then(|mut v| v.pop()) }
+                else if id % 4 == 1 { self.pool.allocate_with_hint(true).ok() } else { self.pool.allocate().ok() };
+        let mut p = match r { Some(p) => p, None => { self.pending = vec![None, None]; return None; } };
         let blk = Blk { addr: p.as_ptr() as usize, usable: p.size(), mem: true };
         let _ = p.as_mut_slice().len();
+        let ser = self.serial(blk.addr);
+        self.pending = vec![Some(ser), Some(p.generation() as i64)];
+        self.pending.extend(self.dump());
         self.h.insert(id, p);
         Some(blk)
     }
-    fn free(&mut self, id: u64) -> bool { self.h.remove(&id); true }
+    fn free(&mut self, id: u64) -> bool {
+        self.h.remove(&id);
+        self.pending = vec![Some(0)];
+        self.pending.extend(self.dump());
+        true
+    }
     fn cfg_align(&self) -> usize { self.align }
     fn effective(&self, _size: usize) -> usize { self.chunk }
+    fn note(&mut self) { let p = std::mem::take(&mut self.pending); self.rec.push(p); }
 }
 impl Drop for SecPut { fn drop(&mut self) { self.h.clear(); } }
 
@@ -720,13 +750,21 @@ fn run_case(cx: &mut Ctx, c: &Value, force: bool) {
         }
         "secure" => {
             let cell = "SecureMemoryPool";
-            cx.sum.eval(cell, &key, nontrivial); cx.sum.cell_status(cell, "S-only");
+            cx.sum.eval(cell, &key, nontrivial);
             let cfg = match u(c, "preset") { 1 => SecurePoolConfig::small_secure(), 2 => SecurePoolConfig::medium_secure(), 3 => SecurePoolConfig::large_secure(),
                 _ => SecurePoolConfig::new(u(c, "chunk") as usize, u(c, "maxchunks") as usize, u(c, "align") as usize).with_local_cache_size(u(c, "lcache") as usize).with_zero_on_alloc(u(c, "flags") & 1 != 0) };
-            let (chunk, align) = (cfg.chunk_size, cfg.alignment);
+            let (chunk, align, lcache) = (cfg.chunk_size, cfg.alignment, cfg.local_cache_size);
             let pool = match guarded(|| SecureMemoryPool::new(cfg)) { Ok(Ok(p)) => p, _ => { cx.sum.dist("pool_new_refused"); return; } };
-            let mut put = SecPut { h: HashMap::new(), pool: pool.clone(), chunk, align, bulk: u(c, "flags") & 2 != 0 };
+            let mut put = SecPut { h: HashMap::new(), pool: pool.clone(), chunk, align, bulk: u(c, "flags") & 2 != 0, serials: HashMap::new(), pending: vec![], rec: vec![] };
             if drive(cx, cell, c, &mut put, &ops).is_some() {
+                if put.rec.len() == ops.len() && cx.room("secure", force) {
+                    let mut cops = vec![]; let mut exp: Vec<String> = vec![];
+                    for (o, r) in ops.iter().zip(put.rec.iter()) {
+                        match o[0] { 0 => cops.push("SAl".to_string()), 1 => cops.push(format!("SFr {}", o[1])), _ => continue }
+                        for x in r { exp.push(coq_oz(&x.map(|v| v as i128))); }
+                    }
+                    cx.shards.push(format!("XSec {} [{}] [{}]", lcache, cops.join("; "), exp.join("; ")), c.clone());
+                }
                 drop(put);
                 if let Err(e) = pool.validate() { cx.sum.fail(cell, None, c.clone(), &format!("pool.validate() after the history: {}", e)); }
             }
